@@ -430,7 +430,14 @@ class EmbeddingTensorMapper(TensorMapper):
                 values = torch.cat(emb_list, dim=0)
         else:
             dtype = _get_default_numpy_dtype()
-            values = torch.from_numpy(np.stack(ser.values).astype(dtype))
+            embs = ser.values
+            na_mask = ser.isna().values
+            if na_mask.any() and not na_mask.all():
+                # Missing cells become NaN vectors of the column's width.
+                nan_emb = np.full(len(embs[(~na_mask).argmax()]), np.nan)
+                embs = [nan_emb if na else emb
+                        for emb, na in zip(embs, na_mask)]
+            values = torch.from_numpy(np.stack(embs).astype(dtype))
         return MultiEmbeddingTensor(
             num_rows=len(ser),
             num_cols=1,
